@@ -459,6 +459,22 @@ def models_v1_grace(v, sc, binary):
     v1_model(v, sc, binary, mk1("v1gracelive", [2, 1], {2: 1, 1: 2}, 2, "rate", 2, 1, 1, graceful=True), spec="GraceSpec", properties=["C07_Live"])
 
 
+SHAREIND_TWINS = [
+    ("ShareTop", "        /\\ tactic' = [p \\in Prios |-> strategic[p] - actual[p]]\n", "        /\\ tactic' = [p \\in Prios |-> IF actual[p] > 0 /\\ fb[p] > 0 THEN strategic[p] ELSE strategic[p] - actual[p]]\n",
+     "top-up computed without subtracting what is still in flight (C05-a family)"),
+    ("ShareBase", "Crowded == \\E p \\in Prios : actual[p] > strategic[p]", "Crowded == \\E p \\in Prios : actual[p] >= strategic[p] /\\ strategic[p] > 0",
+     "crowded test weakened: the base path divides the vacants freely under saturation (C01-e family)"),
+    ("ShareSend", "       /\\ tactic' = [tactic EXCEPT ![p] = @ - 1]\n", "       /\\ tactic' = tactic\n", "send without consuming the tactical share"),
+]
+
+
+def shareind_C05(v, sc, binary):
+    """first clause of C05 for EVERY HandlersQuantity and every strategic division of it, any order and grouping of releases: ShareInd.tla, Apalache"""
+    apalache_inductive(v, sc, "ShareInd", SHAREIND_TWINS, "apalache_inductive_share", stage_specs)
+    v.notes.append("per-priority share under saturation (out[p] <= strategic[p]) proved inductive for every HandlersQuantity and every strategic division on "
+                   "the counter abstraction ShareInd.tla (Apalache, 3 priorities); twins: " + "; ".join(t[3] for t in SHAREIND_TWINS) + " - each rejected")
+
+
 def check_C05(tier):
     huge = mk("p3hugesat", [3, 2, 1], 4, "fair", 1, 0, sat=True)      # priorities 2^64-1, 2, 1: magnitudes TLC cannot carry, mapped to identifiers
     huge["vals"] = {"3": "18446744073709551615", "2": "2", "1": "1"}
@@ -476,7 +492,7 @@ def check_C05(tier):
                             "with every input topped up before each scheduler step; verdict by Mon_Prio: per-priority received - release-issued "
                             "<= share at every event, and at the stall point (nothing outstanding) every priority holds exactly its share, share = "
                             "real divider(all priorities, H). non-trivial = trace with more deliveries than H (shares were recycled); distinct by events",
-                       quick_limit=800)
+                       quick_limit=800, extra=shareind_C05)
 
 
 def check_C15(tier):
